@@ -786,11 +786,14 @@ func doParent(spec *Spec, tier string, seed int64, work string) int {
 	}
 	fmt.Printf("%s %s: evaluations=%d distinct=%d exhaustive=%v violations=%d known=%d wall=%.1fs\n",
 		spec.ID, tier, total.Evals, distinct, !total.Capped, len(confirmed), len(known), time.Since(t0).Seconds())
-	if flaky > 0 {
-		return 2
-	}
+	// a violation that reproduced in all five fresh processes stands on its
+	// own; observations that did not reproduce are reported above as harness
+	// errors and decide the exit status only when nothing was confirmed
 	if len(confirmed) > 0 {
 		return 1
+	}
+	if flaky > 0 {
+		return 2
 	}
 	return 0
 }
